@@ -60,6 +60,19 @@ def execute(spec, keep_coords=False):
         m, j, kind = inj[0], inj[1], inj[2]
         params = inj[3] if len(inj) > 3 else {}
         h.inject_at((m, j), kind, **params)
+    if spec.get("doc_fault"):
+        # a LATER subscriber (the harness' recorder is the first one) raises on the n-th document of a kind
+        fname, fn = spec["doc_fault"]
+        seen = {"n": 0}
+
+        def failing_subscriber(name, doc):
+            if name == fname:
+                seen["n"] += 1
+                if seen["n"] == fn:
+                    h.log.append(("docfault", name, fn))
+                    raise RuntimeError(f"subscriber failed on {name} #{fn}")
+
+        h.RE.subscribe(failing_subscriber)
     h.record_coords = keep_coords
     decisions = list(spec.get("decisions", []))
     RE = h.RE
